@@ -186,7 +186,7 @@ def run(chk):
     chk.rule("C08.O1", "selection = range with the greatest start containing r (inclusive at r = s), None below the first", kmax)
     chk.rule("C08.O2", "the result does not depend on the listing order (constructor sorts through the comparator)", perm_max - 1)
     chk.rule("C08.O3", "value, deriv and deriv2 come from the selected range; default_value / 0.0 when none", 2)
-    chk.rule("C08.O4", "potable: a definition without marker acts for r > 0; builder binds (marker, start); '>=' is tried before '>'", 6)
+    chk.rule("C08.O4", "potable: a definition without marker acts for r > 0; builder binds (marker, start); '>=' is tried before '>'", 8)
     chk.rule("C08.O5", "factory picks the class offering deriv/deriv2 iff any range offers it (any listing order)", 2)
     chk.attempt("P", lambda: premise(chk, P))
     stats = {"cases": 0, "nontrivial": 0, "either": 0}
@@ -357,6 +357,27 @@ def potable_default(chk, P):
         (">=2 as.x", (1, 2, 3), ["0", "F(2)", "F(3)"], "a lone form '>=2 as.x': 0 below its start, its own value from the start on", "lone|form"),
         ("as.x >=2 sum(as.x)", (-1, 1, 2, 3), ["0", "F(1)", "M(2)", "M(3)"], "a second range '>=2 sum(...)' takes over at 2", "two-ranges"),
     ]
+    # one builder used for several definitions of one model file: each keeps its own marker
+    for order in ((0, 1), (1, 0)):
+        defs = (">=3 as.x", ">3 as.x")
+        out = parse(P, "[Pair]\nA-B : %s\nA-C : %s\n" % (defs[order[0]], defs[order[1]]))
+        got = None
+        if out[0] == "ok":
+            J, cp = out[3], out[4]
+            J.assumption_fns.append(F.hasattr_true({"deriv": False, "deriv2": False}))
+            try:
+                rows = J.as_iterable(J.getattr(cp, "pair")).items
+                pfr, mreg = DictV(), DictV()
+                pfr.items[Const("as.x").key()] = (Const("as.x"), PyObjV(FormFactory()))
+                pb = J.instantiate(b_cls, [pfr, mreg], {}, None)
+                pots = [W.run_method(J, pb, "create_potential_function", [J.getattr(r_, "potential_form_instance")]) for r_ in rows]
+                got = [at(J, p_, 3) for p_ in pots]
+            except RaiseSignal as e:
+                got = "raises %r" % (e.exc,)
+        want2 = [("F(3)" if defs[i] == ">=3 as.x" else "0") for i in order]
+        chk.ob("C08.O4", "one builder, '%s' then '%s' (same form, parameters and start, different marker): each definition keeps its own marker at r = 3"
+               % (defs[order[0]], defs[order[1]]), got == want2, site=site, found=got if got is not None else out[1], expect=want2,
+               key="C08.O4|shared-builder|%d%d" % order)
     for defn, probes, want, what, key in cases:
         J, pot = potential(defn)
         if J is None:
